@@ -82,7 +82,7 @@ def make_jobs(ctx):
         hk = dict(hk)
         hk['assume_no_trap'] = True
         j = e2_job(ctx, name, m, script, backends=backends, unwind=unwind, harness_kw=hk, page=page, ub_checks=True,
-                   extra_flags=['--unwindset', 'streq.0:26'], extra_defs=['-DWASM_THREADS_PTHREADS'] if name.startswith('atomic') else ())
+                   extra_flags=['--unwindset', 'streq.0:26'], extra_defs=['-DWASM_THREADS_PTHREADS'] if (name.startswith('atomic') or 'shared' in name) else ())
         jobs.append(j)
         if not isinstance(j, dict):
             for b in compile_gate(ctx, j):
